@@ -471,6 +471,21 @@ fn generators() -> Vec<Src> {
             }
         }
     }
+    // non-dyadic steps: the element count ceil((end-start)/step) is formed in rounded arithmetic, so
+    // the end point start + step*k may land on either side of `end`. The hint law needs no oracle
+    // for the contents (those are C19's subject, on dyadic grids): announced == yielded in every state.
+    for a in [0.0, 0.1, -0.7] {
+        for st in [0.1, 0.3, 0.7, 1e-6, 1_000_000.1, -0.1, -0.3] {
+            for n in 0..=30 {
+                let b = a + st * n as f64;
+                for b in [b, b * (1.0 + 4e-16), b * (1.0 - 4e-16), st * n as f64 + a] {
+                    if (b - a) / st >= 0.0 {
+                        v.push(Src::Range(a, b, st));
+                    }
+                }
+            }
+        }
+    }
     v
 }
 fn adaptors_full(len: usize) -> Vec<Ad> {
